@@ -294,13 +294,24 @@ func c06LinkState(cli *mqtt.BaseClient, r *c06Run) (errNil, doneOpen bool, close
 	return
 }
 
-func c06Body(in c06Input, k int, out **c06Run) func() {
+func c06Body(in0 c06Input, k0 int, out **c06Run) func() {
 	return func() {
+		in, k := in0, k0 // per-execution copies (the body runs once per explored execution)
 		r := &c06Run{}
 		*out = r
 		r.net = env.NewNet()
 		s := env.NewScript(r.net)
-		s.AutoConnAck = true
+		s.AutoConnAck = k >= 0
+		if k < 0 {
+			// CONNACK and the malformed bytes arrive back to back, before Connect has returned
+			s.OnPacket = func(_ *env.Script, p *env.Packet) {
+				if p.Type == env.CONNECT {
+					s.Conn.Send(env.EncConnAck(false, 0), "")
+					r.net.Trace = append(r.net.Trace, env.WireEvent{Conn: s.Conn.ID, Dir: '<', Raw: in.b, Note: in.cat + " (right behind CONNACK)"})
+					s.Conn.Inject(in.b)
+				}
+			}
+		}
 		r.conn = s.Conn
 		cli := &mqtt.BaseClient{
 			Transport: s.Conn,
@@ -309,9 +320,14 @@ func c06Body(in c06Input, k int, out **c06Run) func() {
 		cli.Handle(mqtt.HandlerFunc(func(m *mqtt.Message) {
 			r.got = append(r.got, c06Msg{topic: m.Topic, payload: string(m.Payload), qos: m.QoS})
 		}))
-		if _, err := cli.Connect(vctx.Background(), "c06"); err != nil {
+		if _, err := cli.Connect(vctx.Background(), "c06"); err != nil && k >= 0 {
 			vrt.Failf("c06:harness:connect", "Connect over the scripted peer failed: %v", err)
 			return
+		}
+		if k < 0 {
+			k = 0
+			in.split = 0
+			goto sent
 		}
 		for i := 0; i < k; i++ {
 			m := c06ExpectedMsg(i)
@@ -324,6 +340,7 @@ func c06Body(in c06Input, k int, out **c06Run) func() {
 		} else {
 			s.SendRaw(in.b, in.cat)
 		}
+	sent:
 		vrt.Quiesce()
 		desc := fmt.Sprintf("after CONNACK, %d well-formed PUBLISH and then bytes % x [%s: %s]", k, in.b, in.cat, c06Reference(in.b))
 		if in.listed && !in.needEOF {
@@ -402,8 +419,11 @@ func c06ClientPart(c *Ctx, dangerous bool) {
 			return
 		}
 		isDangerous := in.cat == "overlong-length" && c06NaiveLen(in.b[1:]) > 1<<28
-		for k := 0; k <= 2; k++ {
+		for k := -1; k <= 2; k++ {
 			k := k
+			if k == -1 && (in.split > 0 || in.needEOF) {
+				continue // k=-1: the malformed bytes travel in the same segment as CONNACK (complete packets only)
+			}
 			name := fmt.Sprintf("C06/client/%s/%s/k%d", in.cat, in.sub, k)
 			if names[name] {
 				c.Res.EngineError = "C06 generator self-check: duplicate scenario name " + name
@@ -429,7 +449,7 @@ func c06ClientPart(c *Ctx, dangerous bool) {
 			sc := &vrt.Scenario{
 				Name:   name,
 				Params: map[string]any{"category": in.cat, "input_hex": hex.EncodeToString(in.b), "k": k, "split": in.split, "reference": ref},
-				Bound:  vrt.Budget{},
+				Bound:  vrt.Budget{S: c06BurstS(k)},
 				Body:   c06Body(in, k, &run),
 				Observe: func() uint64 {
 					if run == nil || run.net == nil {
@@ -458,4 +478,11 @@ func c06ClientPart(c *Ctx, dangerous bool) {
 		}
 	}
 	Announce("")
+}
+
+func c06BurstS(k int) int {
+	if k < 0 {
+		return 1 // Connect's select may see the CONNACK and the closed connection at once
+	}
+	return 0
 }
